@@ -299,7 +299,7 @@ Proof.
   pose proof (chunk_loop_is_scan St proc p cb0
                (S (N.to_nat (N.min (to_read / chunkN) (len region / chunkN + 1)))) (N.to_nat chunkN)
                region (Layout.K p * (p + 2)) (length region - Layout.K p * (p + 2)) (fst x) RN acc) as CL.
-  cbn [held_slots concat] in CL. rewrite N2Nat.id, <- TR, <- KL in CL.
+  cbn [held_slots concat base] in CL. rewrite N2Nat.id, <- TR, <- KL in CL.
   rewrite CL; clear CL.
   2:{ lia. }
   2:{ replace (p + 2) with (N.to_nat (N.of_nat (p + 2))) by lia. rewrite <- N2Nat.inj_mod by lia.
